@@ -296,7 +296,7 @@ theorem pinv_of_pq {s s' : State} (h : PQ s s') (i : PInv s) : PInv s' := pinv_o
 @[simp] theorem pq_initTailEvents (s : State) (ph : Phase) (st : String) : PQ s (initTailEvents s ph st) := by
   unfold initTailEvents
   dsimp only
-  generalize hs1 : (if s.rtDoneReg = true then s.emit _ else s) = s1
+  generalize hs1 : (if s.rtDoneReg = true then s.emitEv _ _ else s) = s1
   have h0 : PQ s s1 := by rw [← hs1]; split <;> exact ⟨rfl, rfl⟩
   have h1 := foldl_emit_pq ((s1.agents.filter (·.ext)) ++ (s1.agents.filter (!·.ext))) agentInfoLine s1
   exact PQ.trans' h0 (PQ.trans' h1 ⟨rfl, rfl⟩)
